@@ -57,8 +57,11 @@ ASSUMPTIONS = [
     "sums compared at 1e-9 relative (floats summed in table order); the [0,1] bound allows 1e-12; consequently a cap "
     "threshold that is off by less than 1e-9 cannot be seen (ratios 1 +/- 10**-k, k = 1..15, are generated)",
     "with return_results=False the results mapping is empty by contract and only the aggregates are checked",
-    "a coordinator call that raises (e.g. verify_country_data rejecting an overridden population) returns nothing and "
-    "gets no verdict; it is counted as a probe",
+    "a coordinator call that raises (e.g. verify_country_data rejecting an overridden population, or a worker "
+    "exception it lets through) returns nothing and gets no verdict; it is counted as a probe. A call that RETURNS "
+    "although a worker visit raised is judged over the visits that returned",
+    "the call that meets a torn (half) read of the country table cannot know: it gets no verdict; every later call "
+    "of the history is judged as usual",
 ]
 COMPONENTS = {
     "real": ["ScenarioRunnerNoTrade.run_model_no_trade", "get_countries_to_run_and_skip", "apply_custom_parameters",
@@ -66,6 +69,8 @@ COMPONENTS = {
              "geopandas world map read",
              "run_optimizer_for_country + whole pipeline + CBC in the real-worker slice of histories"],
     "simulated": ["failed-worker fault (NaN ratio) at the worker seam",
+                  "transient worker exception (first visit of a country raises) at the worker seam",
+                  "transient torn read of the combined country table at the pandas.read_csv seam (stubbed histories)",
                   "clock / results FS / table-read seams of engine P in the real-worker slice (no faults planned)"],
     "stub": ["run_optimizer_for_country replaced by a seeded stub in the stubbed histories"],
 }
@@ -253,7 +258,11 @@ def gen_ratios(rng, codes):
         else:
             v = _ratio_value(rng, "above_one" if cls == "above_one" else cls)
         by_code[c] = engine_g.encode_ratio(v)
-    return {"profile": name, "default": 0.5, "by_code": by_code}
+    out = {"profile": name, "default": 0.5, "by_code": by_code}
+    if rng.chance(0.15):
+        # transient worker failure: the first visit of one or two countries raises
+        out["raise_once"] = sorted(_sample_codes(rng, codes, rng.pick([1, 1, 2])))
+    return out
 
 
 def gen_overrides(rng, real=False, ref_pop=None):
@@ -321,6 +330,11 @@ def generate(seed, h, tier):
             "ratio_type": wl.pick(["float", "float", "np"]),
             "return_results": not wl.chance(0.12), "new_runner": wl.chance(0.5), "title": "g%d" % i,
         })
+    fr = rng.sub("readfault")
+    if fr.chance(0.12):
+        # transient torn read of the country table (it is being regenerated while THIS call reads it): the call that
+        # meets it yields no verdict, the calls after it are judged as usual. Usually the first read of the process.
+        calls[0 if fr.chance(0.7) else fr.randrange(len(calls))]["read_fault"] = "truncated"
     return {"h": h, "mode": "stub", "calls": calls}
 
 
@@ -341,8 +355,10 @@ def judge(call, out, mode, V, log, call_no):
     overrides = call.get("overrides", {})
     overridden = "population" in overrides
     pop_of = {c: (float(overrides["population"]) if overridden else table_pop[c]) for c in codes}
-    called = [c.iso3 for c in out.crossings]
-    ratio_of = {c.iso3: c.ratio for c in out.crossings}
+    # a visit that raised produced nothing; if the coordinator carried on regardless (it does not, today), the
+    # aggregate is still judged over the visits that returned
+    called = [c.iso3 for c in out.crossings if c.raised is None]
+    ratio_of = {c.iso3: c.ratio for c in out.crossings if c.raised is None}
     base = {"selection": kind, "mode": mode}
     ctx = {"call": call_no, "selection": selection[:40], "n_selection": len(selection), "flags": call.get("flags"),
            "overrides": overrides, "preset": call.get("preset")}
@@ -430,7 +446,7 @@ def judge(call, out, mode, V, log, call_no):
 
     # ---- every run, non-failed country exactly once in results (keyed by country NAME)
     if call.get("return_results", True):
-        by_code = {c.iso3: c for c in out.crossings}
+        by_code = {c.iso3: c for c in out.crossings if c.raised is None}
         want_names = [name_of[c] for c in counted]
         got_names = list(out.results.keys())
         collide = sorted({n for n in want_names if want_names.count(n) > 1})
@@ -505,6 +521,8 @@ def execute(spec):
     nontrivial, statuses, probes = [], {}, {}
     evaluations, aborts, sim_months = 0, 0, 0
 
+    tables = None
+
     def run_calls(seam):
         nonlocal evaluations, aborts, sim_months
         runner = None
@@ -512,7 +530,13 @@ def execute(spec):
             if runner is None or call.get("new_runner", True):
                 with world.quiet():
                     runner = m.rmnt.ScenarioRunnerNoTrade()
+            torn = False
+            if tables is not None and call.get("read_fault"):
+                tables.start_job()
+                tables.plan[("computer_readable_combined.csv", 0)] = call["read_fault"]
             out = engine_g.call_coordinator(runner, seam, log, i, call, mode)
+            if tables is not None and call.get("read_fault"):
+                torn = tables.plan.pop(("computer_readable_combined.csv", 0), None) is None
             st = out.status.split(":")[0]
             statuses[st] = statuses.get(st, 0) + 1
             kind = selection_kind(call["selection"])
@@ -530,9 +554,15 @@ def execute(spec):
                     key = "abort:" + (out.error or out.status)[:90]
                     probes[key] = probes.get(key, 0) + 1
                 continue
+            if torn:
+                probes["faulted_call_without_verdict"] = probes.get("faulted_call_without_verdict", 0) + 1
+                continue
             n_run, vec = judge(call, out, mode, V, log, i)
             evaluations += 1
             for c in out.crossings:
+                if c.raised is not None:
+                    probes["carried_on_after_worker_exception"] = probes.get("carried_on_after_worker_exception", 0) + 1
+                    continue
                 k = "ratio_" + engine_g.ratio_class(c.ratio)
                 probes[k] = probes.get(k, 0) + 1
             if n_run == 0:
@@ -549,7 +579,12 @@ def execute(spec):
                 with engine_p.Sim(rng, log, capture=False):
                     run_calls(seam)
             else:
-                run_calls(seam)
+                tables = world.TableReads(log=log)
+                tables.install()
+                try:
+                    run_calls(seam)
+                finally:
+                    tables.uninstall()
     finally:
         world.leave_history(d)
     restored = m.rmnt.ScenarioRunnerNoTrade.__dict__[engine_g.WORKER].__name__ == engine_g.WORKER and \
